@@ -1,6 +1,7 @@
 """C08 — measured-register arguments become transforms computing the written formula."""
 import random
 
+import numpy as np
 import sympy as sym
 
 import canon
@@ -52,6 +53,9 @@ def find_rrt_cases(script, scope, cases, text):
                 have = t.func(*[vals[r] for r in t.regrefs])
             except ZeroDivisionError:
                 continue
+            if not isinstance(have, (int, float, complex, np.number)):
+                return "transform of %s applied to the values of its listed registers returns %r, not a number" % (
+                    gen.r_expr(e, gen.Layout()), have)
             if not canon.close(have, want, 1e-9, 1e-12):
                 return "transform of %s gives %r at %s, the written formula gives %r" % (
                     gen.r_expr(e, gen.Layout()), have, vals, want)
@@ -61,7 +65,22 @@ def find_rrt_cases(script, scope, cases, text):
     return None
 
 
+def check_tiny(text, regs):
+    """a register with a minute (but non-zero) coefficient is still a register of the transform"""
+    r = core.impl_loads(text)
+    if r[0] != "ok":
+        return "refused: %r" % (r[1],)
+    for o in r[1].operations:
+        for a in list(o.get("args", [])) + list(o.get("kwargs", {}).values()):
+            if hasattr(a, "regrefs"):
+                if sorted(a.regrefs) != regs:
+                    return "transform %s lists registers %s, written registers %s" % (a.func_str, sorted(a.regrefs), regs)
+    return None
+
+
 def replay(ctx, data):
+    if data.get("kind") == "tiny":
+        return check_tiny(data["text"], data["regs"])
     if data.get("kind") == "loop_rrt":
         return check_loop_rrt(data["loop"], data["unrolled"])
     if data.get("kind") == "rrt":
@@ -144,6 +163,18 @@ def run(ctx):
         msg = find_rrt_cases(script, scope, cases, text)
         if msg:
             ctx.violation("register transform: " + msg, {"kind": "rrt", "script": script, "vals": scope.vals, "text": text})
+    for _ in range(ctx.n(40, 400)):
+        a, b = ctx.rng.sample(range(0, 13), 2)
+        tiny = ctx.rng.choice(["1e-17", "4e-19", "2.5e-300", "1e-16"])
+        form = ctx.rng.choice(["0.5*q%d + %s*q%d", "q%d**2 - %s*q%d*q%d", "q%d/(2 + %s*q%d)"])
+        ex = form % ((a, tiny, b) if form.count("%") == 3 else (a, tiny, a, b))
+        text = "name r\nversion 1.0\n\nDgate(%s, 0.1) | 3\nG(select=%s) | 1\n" % (ex, ex)
+        ctx.count("sub-epsilon-coefficient")
+        ctx.case(text, nontrivial=True)
+        texts.append(text)
+        msg = check_tiny(text, sorted({a, b}))
+        if msg:
+            ctx.violation("register transform: " + msg, {"kind": "tiny", "text": text, "regs": sorted({a, b})})
     for _ in range(ctx.n(60, 600)):
         loop, unrolled = loop_rrt_case(ctx.rng)
         ctx.count("loop-with-register-expression-over-loop-variable")
